@@ -26,6 +26,7 @@ More info can be found at: https://www.w3.org/TR/soap12-part1/
 
 import logging
 
+from lxml import html
 from lxml.builder import E
 
 from spyne.protocol.soap.soap11 import Soap11
@@ -133,12 +134,11 @@ class Soap12(Soap11):
                                                         subelts, add_type=False)
 
     def schema_validation_error_to_parent(self, ctx, cls, inst, parent, ns, **_):
-        subelts = [
-            E("{%s}Reason" % self.soap_env, inst.faultstring),
-            E("{%s}Role" % self.soap_env, inst.faultactor),
-        ]
+        if isinstance(inst.faultstring, bytes):
+            # ascii with character references, see XmlDocument.__validate_lxml
+            inst.faultstring = html.fromstring(inst.faultstring).text
 
-        return self._fault_to_parent_impl(ctx, cls, inst, parent, ns, subelts)
+        return self.fault_to_parent(ctx, cls, inst, parent, ns)
 
     def fault_from_element(self, ctx, cls, element):
         nsmap = element.nsmap
